@@ -53,13 +53,21 @@ class C11(EvalFamProp):
         def extra(obs, root, cfg, w):
             checks = []
             checks += py_walk_leaks(cfg)
-            for k in list(cfg.keys()):
-                if isinstance(k, str) and k.isidentifier() and not k.startswith('_') and not hasattr(dict, k) and k not in ('ayns',):
-                    try:
-                        if getattr(cfg, k) is not cfg[k]:
-                            checks.append(f'cfg.{k} is not cfg[{k!r}]')
-                    except Exception as e:
-                        checks.append(f'cfg.{k} raised {type(e).__name__}')
+            def attrs(b, path, depth=0):
+                if isinstance(b, dict):
+                    for k in list(b.keys()):
+                        if isinstance(k, str) and k.isidentifier() and not k.startswith('__') and not hasattr(dict, k) and k not in ('ayns',) \
+                                and not (depth == 0 and k in ('_source', '_user_data')):
+                            try:
+                                if getattr(b, k) is not b[k]:
+                                    checks.append(f'{path}.{k} is not {path}[{k!r}]')
+                            except Exception as e:
+                                checks.append(f'{path}.{k} raised {type(e).__name__} although the key exists')
+                        attrs(b[k], f'{path}[{k!r}]', depth + 1)
+                elif isinstance(b, list):
+                    for i, x in enumerate(b):
+                        attrs(x, f'{path}[{i}]', depth + 1)
+            attrs(cfg, 'cfg')
             def mirror(node, val, path):
                 t = type(node)
                 if t is ConfigDict:
